@@ -27,7 +27,7 @@ CFG = dict(
          "unread stream, unary+stream, 2 unary+stream, 3 streams) x a read failure after EVERY prefix of the response sequence x {writes "
          "fail, writes succeed} x {no caller, a unary caller, a stream opener} parked at the mux.checked yield point and released after "
          "the failure x afterwards RecvMsg/SendMsg/Header/CloseSend/Trailer on every stream and a unary call + a stream started after the "
-         "failure; plus RecvMsg parked at cs.recv.checked x failure; pending operations and goroutine census observed at every quiescent point; (b) TestC09Errors: a stream (Header, RecvMsg) and a unary "
+         "failure; in one case in four the owner calls ClientConn.Close() (user action 'close': on the unchanged tree it only reports ConnEnd, in the model it is a no-op, so calls after Close still work and a later read failure still has to end every call) right before the read fails; plus RecvMsg parked at cs.recv.checked x failure; pending operations and goroutine census observed at every quiescent point; (b) TestC09Errors: a stream (Header, RecvMsg) and a unary "
          "call in flight x the transport's Read failing with 8 error VALUES (plain, io.EOF, wrapped EOF, a websocket-style EOF text, "
          "io.ErrUnexpectedEOF, context.Canceled, context.DeadlineExceeded, a gRPC status error) after 0..2 response envelopes and no "
          "trailer: every later RecvMsg / Header / Invoke must return a non-EOF error AND the six results must equal those of the model's run of the "
